@@ -29,57 +29,86 @@ Ltac vstep :=
   | |- relV (let _ := _ in _) _ => cbv zeta
   end.
 
+(* lemma dispatch by syntactic head: [apply] on a non-matching goal would unfold the whole model *)
+Ltac vlem := fail.
+
 Lemma change_state_V ns w : relV (change_state ns) w.
 Proof. unfold change_state. repeat vstep; try vprim. Qed.
+Ltac vlem1 := match goal with |- relV (change_state _) _ => apply change_state_V end.
+Ltac vlem ::= first [ vlem1 ].
 
 Lemma tr_recv_V len t w : relV (tr_recv len t) w.
 Proof.
   unfold rel, tr_recv. destruct (tr_recv_evs _ _ _ _ _) as [[[[[c|b]|] es] t'] tr]; try destruct (c =? -99); vfin.
 Qed.
+Ltac vlem2 := match goal with |- relV (tr_recv _ _) _ => apply tr_recv_V end.
+Ltac vlem ::= first [ vlem1 | vlem2 ].
 
 Lemma tr_recv_all_loop_V fuel : forall len e acc w, relV (tr_recv_all_loop fuel len e acc) w.
 Proof.
   induction fuel as [|f IH]; intros; cbn [tr_recv_all_loop]; [apply (rel_ret V V_refl)|].
-  repeat vstep; try apply tr_recv_V; try apply IH.
+  repeat vstep; try vlem; try (match goal with |- relV (tr_recv_all_loop _ _ _ _) _ => apply IH | |- relV (tr_send_all_loop _ _ _) _ => apply IH | |- relV (store_loop _ _ _ _) _ => apply IH | |- relV (sync_first _) _ => apply IH end).
 Qed.
+Ltac vlem3 := match goal with |- relV (tr_recv_all_loop _ _ _ _) _ => apply tr_recv_all_loop_V end.
+Ltac vlem ::= first [ vlem1 | vlem2 | vlem3 ].
 
 Lemma tr_recv_all_V len t w : relV (tr_recv_all len t) w.
 Proof. unfold tr_recv_all. repeat vstep. apply tr_recv_all_loop_V. Qed.
+Ltac vlem4 := match goal with |- relV (tr_recv_all _ _) _ => apply tr_recv_all_V end.
+Ltac vlem ::= first [ vlem1 | vlem2 | vlem3 | vlem4 ].
 
 Lemma tr_send_V b w : relV (tr_send b) w.
 Proof. unfold rel, tr_send. destruct (sends w); destruct (_ <? 0); vfin. Qed.
+Ltac vlem5 := match goal with |- relV (tr_send _) _ => apply tr_send_V end.
+Ltac vlem ::= first [ vlem1 | vlem2 | vlem3 | vlem4 | vlem5 ].
 
 Lemma tr_send_all_loop_V fuel : forall b tot w, relV (tr_send_all_loop fuel b tot) w.
 Proof.
   induction fuel as [|f IH]; intros; cbn [tr_send_all_loop]; [apply (rel_ret V V_refl)|].
-  repeat vstep; try apply tr_send_V; try apply IH.
+  repeat vstep; try vlem; try (match goal with |- relV (tr_recv_all_loop _ _ _ _) _ => apply IH | |- relV (tr_send_all_loop _ _ _) _ => apply IH | |- relV (store_loop _ _ _ _) _ => apply IH | |- relV (sync_first _) _ => apply IH end).
 Qed.
+Ltac vlem6 := match goal with |- relV (tr_send_all_loop _ _ _) _ => apply tr_send_all_loop_V end.
+Ltac vlem ::= first [ vlem1 | vlem2 | vlem3 | vlem4 | vlem5 | vlem6 ].
 
 Lemma send_pdu_V b w : relV (send_pdu b) w.
-Proof. unfold send_pdu, tr_send_all. repeat vstep; try apply tr_send_all_loop_V. Qed.
+Proof. unfold send_pdu, tr_send_all. repeat vstep; try vlem. Qed.
+Ltac vlem7 := match goal with |- relV (send_pdu _) _ => apply send_pdu_V end.
+Ltac vlem ::= first [ vlem1 | vlem2 | vlem3 | vlem4 | vlem5 | vlem6 | vlem7 ].
 
 Lemma send_error_pdu_V enc c t w : relV (send_error_pdu enc c t) w.
-Proof. unfold send_error_pdu. repeat vstep; try apply send_pdu_V. Qed.
+Proof. unfold send_error_pdu. repeat vstep; try vlem. Qed.
+Ltac vlem8 := match goal with |- relV (send_error_pdu _ _ _) _ => apply send_error_pdu_V end.
+Ltac vlem ::= first [ vlem1 | vlem2 | vlem3 | vlem4 | vlem5 | vlem6 | vlem7 | vlem8 ].
 
 Lemma send_error_from_host_V enc c t w : relV (send_error_from_host enc c t) w.
-Proof. unfold send_error_from_host. repeat vstep; try apply send_error_pdu_V. Qed.
+Proof. unfold send_error_from_host. repeat vstep; try vlem. Qed.
+Ltac vlem9 := match goal with |- relV (send_error_from_host _ _ _) _ => apply send_error_from_host_V end.
+Ltac vlem ::= first [ vlem1 | vlem2 | vlem3 | vlem4 | vlem5 | vlem6 | vlem7 | vlem8 | vlem9 ].
 
 Lemma send_serial_query_V w : relV send_serial_query w.
-Proof. unfold send_serial_query. repeat vstep; try apply send_pdu_V; try apply change_state_V. Qed.
+Proof. unfold send_serial_query. repeat vstep; try vlem. Qed.
+Ltac vlem10 := match goal with |- relV (send_serial_query) _ => apply send_serial_query_V end.
+Ltac vlem ::= first [ vlem1 | vlem2 | vlem3 | vlem4 | vlem5 | vlem6 | vlem7 | vlem8 | vlem9 | vlem10 ].
 
 Lemma send_reset_query_V w : relV send_reset_query w.
-Proof. unfold send_reset_query. repeat vstep; try apply send_pdu_V; try apply change_state_V. Qed.
+Proof. unfold send_reset_query. repeat vstep; try vlem. Qed.
+Ltac vlem11 := match goal with |- relV (send_reset_query) _ => apply send_reset_query_V end.
+Ltac vlem ::= first [ vlem1 | vlem2 | vlem3 | vlem4 | vlem5 | vlem6 | vlem7 | vlem8 | vlem9 | vlem10 | vlem11 ].
 
 Lemma recv_err_V c w : relV (recv_err c) w.
-Proof. unfold recv_err. repeat vstep; try apply change_state_V. Qed.
+Proof. unfold recv_err. repeat vstep; try vlem. Qed.
+Ltac vlem12 := match goal with |- relV (recv_err _) _ => apply recv_err_V end.
+Ltac vlem ::= first [ vlem1 | vlem2 | vlem3 | vlem4 | vlem5 | vlem6 | vlem7 | vlem8 | vlem9 | vlem10 | vlem11 | vlem12 ].
 
 Lemma tr_open_V w : relV tr_open w.
 Proof. unfold rel, tr_open. destruct (opens w); vfin. Qed.
+Ltac vlem13 := match goal with |- relV (tr_open) _ => apply tr_open_V end.
+Ltac vlem ::= first [ vlem1 | vlem2 | vlem3 | vlem4 | vlem5 | vlem6 | vlem7 | vlem8 | vlem9 | vlem10 | vlem11 | vlem12 | vlem13 ].
 
 Lemma receive_pdu_V t w : relV (receive_pdu t) w.
 Proof.
   unfold receive_pdu.
-  repeat vstep; try apply tr_recv_all_V; try apply recv_err_V; try apply send_error_pdu_V; try apply change_state_V.
+  repeat vstep; try vlem.
   all: try (vprim; fail).
   (* the live downgrade: version 1 -> 0 only *)
   all: try (unfold rel; unfold_prims;
@@ -87,25 +116,35 @@ Proof.
             repeat match goal with H : _ && _ = true |- _ => apply andb_true_iff in H as [? ?] end;
             repeat match goal with H : (_ =? _) = true |- _ => apply Z.eqb_eq in H end; lia).
 Qed.
+Ltac vlem14 := match goal with |- relV (receive_pdu _) _ => apply receive_pdu_V end.
+Ltac vlem ::= first [ vlem1 | vlem2 | vlem3 | vlem4 | vlem5 | vlem6 | vlem7 | vlem8 | vlem9 | vlem10 | vlem11 | vlem12 | vlem13 | vlem14 ].
 
 Lemma handle_error_pdu_V p w : relV (handle_error_pdu p) w.
 Proof.
-  unfold handle_error_pdu. repeat vstep; try apply change_state_V.
+  unfold handle_error_pdu. repeat vstep; try vlem.
   unfold rel; unfold_prims; vfin.
   repeat match goal with H : _ && _ = true |- _ => apply andb_true_iff in H as [? ?] end.
   repeat match goal with H : (_ <? _) = true |- _ => apply Z.ltb_lt in H end.
   repeat match goal with H : (_ >=? _) = true |- _ => rewrite Z.geb_leb in H; apply Z.leb_le in H end.
   change c_RTR_PROTOCOL_MIN_SUPPORTED_VERSION with 0 in *. lia.
 Qed.
+Ltac vlem15 := match goal with |- relV (handle_error_pdu _) _ => apply handle_error_pdu_V end.
+Ltac vlem ::= first [ vlem1 | vlem2 | vlem3 | vlem4 | vlem5 | vlem6 | vlem7 | vlem8 | vlem9 | vlem10 | vlem11 | vlem12 | vlem13 | vlem14 | vlem15 ].
 
 Lemma report_update_failure_V p c k w : relV (report_update_failure p c k) w.
-Proof. unfold report_update_failure. repeat vstep; try apply send_error_from_host_V; try apply change_state_V. Qed.
+Proof. unfold report_update_failure. repeat vstep; try vlem. Qed.
+Ltac vlem16 := match goal with |- relV (report_update_failure _ _ _) _ => apply report_update_failure_V end.
+Ltac vlem ::= first [ vlem1 | vlem2 | vlem3 | vlem4 | vlem5 | vlem6 | vlem7 | vlem8 | vlem9 | vlem10 | vlem11 | vlem12 | vlem13 | vlem14 | vlem15 | vlem16 ].
 
 Lemma src_remove_all_V w : relV src_remove_all w.
 Proof. unfold src_remove_all. repeat vstep; try vprim. Qed.
+Ltac vlem17 := match goal with |- relV (src_remove_all) _ => apply src_remove_all_V end.
+Ltac vlem ::= first [ vlem1 | vlem2 | vlem3 | vlem4 | vlem5 | vlem6 | vlem7 | vlem8 | vlem9 | vlem10 | vlem11 | vlem12 | vlem13 | vlem14 | vlem15 | vlem16 | vlem17 ].
 
 Lemma purge_after_failed_undo_V w : relV purge_after_failed_undo w.
-Proof. unfold purge_after_failed_undo. repeat vstep; try apply src_remove_all_V; try vprim. Qed.
+Proof. unfold purge_after_failed_undo. repeat vstep; try vlem; try vprim. Qed.
+Ltac vlem18 := match goal with |- relV (purge_after_failed_undo) _ => apply purge_after_failed_undo_V end.
+Ltac vlem ::= first [ vlem1 | vlem2 | vlem3 | vlem4 | vlem5 | vlem6 | vlem7 | vlem8 | vlem9 | vlem10 | vlem11 | vlem12 | vlem13 | vlem14 | vlem15 | vlem16 | vlem17 | vlem18 ].
 
 Lemma apply_eod_intervals_version s p : version (apply_eod_intervals s p) = version s.
 Proof. unfold apply_eod_intervals. destruct (_ && _); reflexivity. Qed.
@@ -113,57 +152,73 @@ Proof. unfold apply_eod_intervals. destruct (_ && _); reflexivity. Qed.
 Lemma process_eod_V p v4 v6 ks w : relV (process_eod p v4 v6 ks) w.
 Proof.
   unfold process_eod.
-  repeat vstep; try apply send_error_from_host_V; try apply change_state_V; try apply report_update_failure_V;
-    try apply purge_after_failed_undo_V; try (vprim; fail).
+  repeat vstep; try vlem; try (vprim; fail).
   all: try (unfold rel; unfold_prims; vfin; rewrite ?apply_eod_intervals_version; lia).
 Qed.
+Ltac vlem19 := match goal with |- relV (process_eod _ _ _ _) _ => apply process_eod_V end.
+Ltac vlem ::= first [ vlem1 | vlem2 | vlem3 | vlem4 | vlem5 | vlem6 | vlem7 | vlem8 | vlem9 | vlem10 | vlem11 | vlem12 | vlem13 | vlem14 | vlem15 | vlem16 | vlem17 | vlem18 | vlem19 ].
 
 Lemma store_loop_V fuel : forall v4 v6 ks w, relV (store_loop fuel v4 v6 ks) w.
 Proof.
   induction fuel as [|f IH]; intros; cbn [store_loop]; [apply (rel_ret V V_refl)|].
-  repeat vstep; try apply receive_pdu_V; try apply change_state_V; try apply send_error_from_host_V;
-    try apply IH; try apply process_eod_V; try apply handle_error_pdu_V.
+  repeat vstep; try vlem; try (match goal with |- relV (tr_recv_all_loop _ _ _ _) _ => apply IH | |- relV (tr_send_all_loop _ _ _) _ => apply IH | |- relV (store_loop _ _ _ _) _ => apply IH | |- relV (sync_first _) _ => apply IH end); try vlem.
 Qed.
+Ltac vlem20 := match goal with |- relV (store_loop _ _ _ _) _ => apply store_loop_V end.
+Ltac vlem ::= first [ vlem1 | vlem2 | vlem3 | vlem4 | vlem5 | vlem6 | vlem7 | vlem8 | vlem9 | vlem10 | vlem11 | vlem12 | vlem13 | vlem14 | vlem15 | vlem16 | vlem17 | vlem18 | vlem19 | vlem20 ].
 
 Lemma receive_and_store_V fuel w : relV (receive_and_store fuel) w.
-Proof. unfold receive_and_store. repeat vstep; try apply store_loop_V; try (vprim; destruct (resetting _); vfin). Qed.
+Proof. unfold receive_and_store. repeat vstep; try vlem; try (vprim; destruct (resetting _); vfin). Qed.
+Ltac vlem21 := match goal with |- relV (receive_and_store _) _ => apply receive_and_store_V end.
+Ltac vlem ::= first [ vlem1 | vlem2 | vlem3 | vlem4 | vlem5 | vlem6 | vlem7 | vlem8 | vlem9 | vlem10 | vlem11 | vlem12 | vlem13 | vlem14 | vlem15 | vlem16 | vlem17 | vlem18 | vlem19 | vlem20 | vlem21 ].
 
 Lemma sync_first_V fuel : forall w, relV (sync_first fuel) w.
 Proof.
   induction fuel as [|f IH]; intros; cbn [sync_first]; [apply (rel_ret V V_refl)|].
-  repeat vstep; try apply receive_pdu_V; try apply change_state_V; try apply IH.
+  repeat vstep; try vlem; try (match goal with |- relV (tr_recv_all_loop _ _ _ _) _ => apply IH | |- relV (tr_send_all_loop _ _ _) _ => apply IH | |- relV (store_loop _ _ _ _) _ => apply IH | |- relV (sync_first _) _ => apply IH end).
   unfold rel; unfold_prims; vfin.
   repeat match goal with H : _ && _ = true |- _ => apply andb_true_iff in H as [? ?] end.
   match goal with H : (_ >? _) = true |- _ => rewrite Z.gtb_ltb in H; apply Z.ltb_lt in H end.
   change c_RTR_PROTOCOL_MIN_SUPPORTED_VERSION with 0 in *. lia.
 Qed.
+Ltac vlem22 := match goal with |- relV (sync_first _) _ => apply sync_first_V end.
+Ltac vlem ::= first [ vlem1 | vlem2 | vlem3 | vlem4 | vlem5 | vlem6 | vlem7 | vlem8 | vlem9 | vlem10 | vlem11 | vlem12 | vlem13 | vlem14 | vlem15 | vlem16 | vlem17 | vlem18 | vlem19 | vlem20 | vlem21 | vlem22 ].
 
 Lemma rtr_sync_V fuel w : relV (rtr_sync fuel) w.
 Proof.
   unfold rtr_sync.
-  repeat vstep; try apply sync_first_V; try apply handle_error_pdu_V; try apply change_state_V;
-    try apply send_error_from_host_V; try apply receive_and_store_V; try (vprim; fail).
+  repeat vstep; try vlem; try (vprim; fail).
   all: try (unfold rel; unfold_prims; destruct (negb _); vfin).
 Qed.
+Ltac vlem23 := match goal with |- relV (rtr_sync _) _ => apply rtr_sync_V end.
+Ltac vlem ::= first [ vlem1 | vlem2 | vlem3 | vlem4 | vlem5 | vlem6 | vlem7 | vlem8 | vlem9 | vlem10 | vlem11 | vlem12 | vlem13 | vlem14 | vlem15 | vlem16 | vlem17 | vlem18 | vlem19 | vlem20 | vlem21 | vlem22 | vlem23 ].
 
 Lemma wait_for_sync_V w : relV wait_for_sync w.
-Proof. unfold wait_for_sync. repeat vstep; try apply receive_pdu_V; try apply change_state_V. Qed.
+Proof. unfold wait_for_sync. repeat vstep; try vlem. Qed.
+Ltac vlem24 := match goal with |- relV (wait_for_sync) _ => apply wait_for_sync_V end.
+Ltac vlem ::= first [ vlem1 | vlem2 | vlem3 | vlem4 | vlem5 | vlem6 | vlem7 | vlem8 | vlem9 | vlem10 | vlem11 | vlem12 | vlem13 | vlem14 | vlem15 | vlem16 | vlem17 | vlem18 | vlem19 | vlem20 | vlem21 | vlem22 | vlem23 | vlem24 ].
 
 Lemma purge_outdated_V w : relV purge_outdated w.
-Proof. unfold purge_outdated. repeat vstep; try apply src_remove_all_V; try vprim. Qed.
+Proof. unfold purge_outdated. repeat vstep; try vlem; try vprim. Qed.
+Ltac vlem25 := match goal with |- relV (purge_outdated) _ => apply purge_outdated_V end.
+Ltac vlem ::= first [ vlem1 | vlem2 | vlem3 | vlem4 | vlem5 | vlem6 | vlem7 | vlem8 | vlem9 | vlem10 | vlem11 | vlem12 | vlem13 | vlem14 | vlem15 | vlem16 | vlem17 | vlem18 | vlem19 | vlem20 | vlem21 | vlem22 | vlem23 | vlem24 | vlem25 ].
 
 Lemma fsm_step_V fuel w : relV (fsm_step fuel) w.
 Proof.
   unfold fsm_step.
-  repeat vstep; try apply purge_outdated_V; try apply tr_open_V; try apply change_state_V; try apply send_serial_query_V;
-    try apply send_reset_query_V; try apply rtr_sync_V; try apply wait_for_sync_V; try (vprim; fail).
+  repeat vstep; try vlem; try (vprim; fail).
 Qed.
+Ltac vlem26 := match goal with |- relV (fsm_step _) _ => apply fsm_step_V end.
+Ltac vlem ::= first [ vlem1 | vlem2 | vlem3 | vlem4 | vlem5 | vlem6 | vlem7 | vlem8 | vlem9 | vlem10 | vlem11 | vlem12 | vlem13 | vlem14 | vlem15 | vlem16 | vlem17 | vlem18 | vlem19 | vlem20 | vlem21 | vlem22 | vlem23 | vlem24 | vlem25 | vlem26 ].
 
 Lemma rtr_stop_V w : relV rtr_stop w.
-Proof. unfold rtr_stop. repeat vstep; try apply change_state_V; try apply src_remove_all_V; try (vprim; fail). Qed.
+Proof. unfold rtr_stop. repeat vstep; try vlem; try (vprim; fail). Qed.
+Ltac vlem27 := match goal with |- relV (rtr_stop) _ => apply rtr_stop_V end.
+Ltac vlem ::= first [ vlem1 | vlem2 | vlem3 | vlem4 | vlem5 | vlem6 | vlem7 | vlem8 | vlem9 | vlem10 | vlem11 | vlem12 | vlem13 | vlem14 | vlem15 | vlem16 | vlem17 | vlem18 | vlem19 | vlem20 | vlem21 | vlem22 | vlem23 | vlem24 | vlem25 | vlem26 | vlem27 ].
 
 Lemma dump_V tag w : relV (dump tag) w.
 Proof. unfold rel, dump. unfold_prims. vfin. Qed.
+Ltac vlem28 := match goal with |- relV (dump _) _ => apply dump_V end.
+Ltac vlem ::= first [ vlem1 | vlem2 | vlem3 | vlem4 | vlem5 | vlem6 | vlem7 | vlem8 | vlem9 | vlem10 | vlem11 | vlem12 | vlem13 | vlem14 | vlem15 | vlem16 | vlem17 | vlem18 | vlem19 | vlem20 | vlem21 | vlem22 | vlem23 | vlem24 | vlem25 | vlem26 | vlem27 | vlem28 ].
 
 Theorem run_fsm_V n fuel : forall w, V w (run_fsm n fuel w).
 Proof.
@@ -173,7 +228,7 @@ Proof.
   - eapply V_trans; [exact H|apply IH].
   - exact H.
   - assert (Hs : relV (mdo _ <- rtr_stop; mdo _ <- dump 1; modify_sk (fun s => upd_st s c_RTR_CONNECTING)) w').
-    { repeat vstep; try apply rtr_stop_V; try apply dump_V; try (vprim; fail). }
+    { repeat vstep; try vlem; try (vprim; fail). }
     unfold rel in Hs.
     destruct ((mdo _ <- rtr_stop; mdo _ <- dump 1; modify_sk (fun s => upd_st s c_RTR_CONNECTING)) w') as [[] w2|e w2].
     + eapply V_trans; [exact H|]. eapply V_trans; [exact Hs|apply IH].
